@@ -115,6 +115,13 @@ func vC10BackendHandler(w http.ResponseWriter, r *http.Request) {
 			perms := []Permission{}
 			response.Room.Permissions = &perms
 		}
+		if request.Room.UserId == "bystander" && vC10HideNames.Load() {
+			// everything a session has without a list, plus `hide-displaynames`: the recipient's
+			// side then decodes the payload of forwarded messages (filterMessage)
+			perms := []Permission{PERMISSION_MAY_PUBLISH_MEDIA, PERMISSION_MAY_PUBLISH_AUDIO, PERMISSION_MAY_PUBLISH_VIDEO,
+				PERMISSION_MAY_PUBLISH_SCREEN, PERMISSION_MAY_CONTROL, PERMISSION_TRANSIENT_DATA, PERMISSION_HIDE_DISPLAYNAMES}
+			response.Room.Permissions = &perms
+		}
 	case "session":
 		rid := ""
 		if request.Session != nil {
@@ -140,6 +147,10 @@ func vC10BackendHandler(w http.ResponseWriter, r *http.Request) {
 	w.WriteHeader(http.StatusOK)
 	w.Write(data) // nolint
 }
+
+// vC10HideNames: the fake backend grants the bystander `hide-displaynames` (world flag `h`; worlds run
+// one after the other).
+var vC10HideNames atomic.Bool
 
 // key pair of the fake Nextcloud instances for hello v2 / federation tokens
 // (fixed seed: setup material, not an input of a case)
@@ -198,6 +209,7 @@ type vC10Frame struct {
 
 type vC10Conn struct {
 	ws   *websocket.Conn
+	rem  *vC10Remote // instead of ws: a connection that reaches the hub the way a proxied one does
 	ch   chan vC10Frame
 	dead bool
 	pub  string
@@ -230,6 +242,9 @@ func vC10Dial(serverURL string) (*vC10Conn, error) {
 func (c *vC10Conn) send(mt int, data []byte) error {
 	c.wmu.Lock()
 	defer c.wmu.Unlock()
+	if c.rem != nil {
+		return c.rem.deliver(data)
+	}
 	c.ws.SetWriteDeadline(time.Now().Add(5 * time.Second)) // nolint
 	return c.ws.WriteMessage(mt, data)
 }
@@ -246,7 +261,97 @@ func (c *vC10Conn) close() {
 	if c == nil {
 		return
 	}
+	if c.rem != nil {
+		c.rem.Close()
+		return
+	}
 	c.ws.Close()
+}
+
+// vC10Remote is a HandlerClient that is not a *Client: the hub sees a connection of this kind when another
+// node of the cluster proxies a websocket to it (remoteGrpcClient: frames that passed the other node's
+// ReadPump arrive through Hub.OnMessageReceived, replies are queued for the way back).  Frames are handed
+// to the hub one after the other by a goroutine of the connection, replies appear on the vC10Conn's channel
+// as the bytes the other node would write to the websocket.
+type vC10Remote struct {
+	hub     *Hub
+	conn    *vC10Conn
+	mu      sync.Mutex
+	session Session
+	closed  bool
+	in      chan []byte
+	done    chan struct{}
+}
+
+func vC10NewRemote(hub *Hub) *vC10Conn {
+	c := &vC10Conn{ch: make(chan vC10Frame, 1024)}
+	r := &vC10Remote{hub: hub, conn: c, in: make(chan []byte, 64), done: make(chan struct{})}
+	c.rem = r
+	go func() {
+		for {
+			select {
+			case data := <-r.in:
+				hub.OnMessageReceived(r, data)
+			case <-r.done:
+				return
+			}
+		}
+	}()
+	return c
+}
+
+func (r *vC10Remote) deliver(data []byte) error {
+	select {
+	case r.in <- append([]byte(nil), data...):
+		return nil
+	case <-r.done:
+		return fmt.Errorf("closed")
+	}
+}
+
+func (r *vC10Remote) Context() context.Context { return context.Background() }
+func (r *vC10Remote) RemoteAddr() string       { return "192.0.2.1" }
+func (r *vC10Remote) Country() string          { return "" }
+func (r *vC10Remote) UserAgent() string        { return "verif-remote" }
+func (r *vC10Remote) IsConnected() bool        { r.mu.Lock(); defer r.mu.Unlock(); return !r.closed }
+func (r *vC10Remote) IsAuthenticated() bool    { return r.GetSession() != nil }
+func (r *vC10Remote) GetSession() Session      { r.mu.Lock(); defer r.mu.Unlock(); return r.session }
+func (r *vC10Remote) SetSession(s Session)     { r.mu.Lock(); defer r.mu.Unlock(); r.session = s }
+func (r *vC10Remote) SendError(e *Error) bool  { return r.SendMessage(&ServerMessage{Type: "error", Error: e}) }
+func (r *vC10Remote) SendByeResponse(message *ClientMessage) bool {
+	return r.SendByeResponseWithReason(message, "")
+}
+func (r *vC10Remote) SendByeResponseWithReason(message *ClientMessage, reason string) bool {
+	response := &ServerMessage{Type: "bye"}
+	if message != nil {
+		response.Id = message.Id
+	}
+	if reason != "" {
+		response.Bye = &ByeServerMessage{Reason: reason}
+	}
+	return r.SendMessage(response)
+}
+func (r *vC10Remote) SendMessage(message WritableClientMessage) bool {
+	data, err := message.MarshalJSON()
+	if err != nil {
+		return false
+	}
+	r.conn.ch <- vC10Frame{data: data}
+	if message.CloseAfterSend(r.GetSession()) {
+		r.Close()
+	}
+	return true
+}
+func (r *vC10Remote) Close() {
+	r.mu.Lock()
+	was := r.closed
+	r.closed = true
+	r.mu.Unlock()
+	if !was {
+		close(r.done)
+		r.conn.ch <- vC10Frame{err: io.EOF}
+		go r.hub.OnClosed(r)
+	}
 }
 
 // vC10Kind names a server message: type plus the discriminating sub-type.  The
@@ -333,6 +438,14 @@ type vC10World struct {
 	by  *vC10Conn
 	snd *vC10Conn
 
+	// the bystander as a recipient (world flags `by=`: n = in no room, h = hide-displaynames, c = in the
+	// call; ops `by drop` / `by resume`)
+	byFlags    string
+	bySess     *ClientSession
+	byDetached bool
+	bySeen     int      // queued messages (without barrier markers) already reported
+	byQueued   []string // kinds queued since the connection was dropped
+
 	state string
 	syncN int
 
@@ -399,12 +512,13 @@ func vC10NewHub(t *testing.T, mcu int) (*Hub, *httptest.Server, AsyncEvents, err
 	return h, server, events, nil
 }
 
-func vC10NewWorld(t *testing.T, mcu int) (*vC10World, error) {
+func vC10NewWorld(t *testing.T, mcu int, byFlags string) (*vC10World, error) {
+	vC10HideNames.Store(strings.Contains(byFlags, "h"))
 	h, server, events, err := vC10NewHub(t, mcu)
 	if err != nil {
 		return nil, err
 	}
-	w := &vC10World{t: t, hub: h, server: server, events: events, mcu: mcu != 0}
+	w := &vC10World{t: t, hub: h, server: server, events: events, mcu: mcu != 0, byFlags: byFlags}
 	if mcu == 2 {
 		// the real Janus client; every session may subscribe every stream (otherwise only the
 		// "in the same call" states would get past the hub), requests for streams nobody
@@ -431,9 +545,18 @@ func vC10NewWorld(t *testing.T, mcu int) (*vC10World, error) {
 		return nil, err
 	}
 	w.by = by
-	if err := w.join(by, vC10Room, "rs-by"); err != nil {
-		w.close()
-		return nil, err
+	if !strings.Contains(byFlags, "n") {
+		if err := w.join(by, vC10Room, "rs-by"); err != nil {
+			w.close()
+			return nil, err
+		}
+		w.barrier()
+		if strings.Contains(byFlags, "c") {
+			if err := w.bystanderInCall(); err != nil {
+				w.close()
+				return nil, err
+			}
+		}
 	}
 	w.barrier()
 	if mcu == 2 {
@@ -443,6 +566,220 @@ func vC10NewWorld(t *testing.T, mcu int) (*vC10World, error) {
 		}
 	}
 	return w, nil
+}
+
+// bystanderInCall: the Nextcloud backend reports the bystander as being in the call of its room.
+func (w *vC10World) bystanderInCall() error {
+	sess, _ := w.connSession(w.by).(*ClientSession)
+	if sess == nil {
+		return fmt.Errorf("the bystander has no session")
+	}
+	entry := []map[string]interface{}{{"sessionId": w.by.pub, "inCall": 7}}
+	err := w.events.PublishBackendRoomMessage(vC10Room, w.backend, &AsyncMessage{Type: "room", Room: &BackendServerRoomRequest{
+		Type: "incall", ReceivedTime: time.Now().UnixNano(),
+		InCall: &BackendRoomInCallRequest{InCall: json.RawMessage("7"), Changed: entry, Users: entry}}})
+	if err != nil {
+		return err
+	}
+	deadline := time.Now().Add(2 * time.Second)
+	for time.Now().Before(deadline) {
+		if room := sess.GetRoom(); room != nil && room.IsSessionInCall(sess) {
+			return nil
+		}
+		time.Sleep(200 * time.Microsecond)
+	}
+	return fmt.Errorf("the bystander did not get into the call")
+}
+
+// dropBystander closes the bystander's connection without `bye`: its session stays (in its room, if
+// any) and waits to be resumed; what is sent to it from now on is queued.
+func (w *vC10World) dropBystander() error {
+	if w.byDetached || w.by == nil || w.by.dead {
+		return nil
+	}
+	sess, _ := w.connSession(w.by).(*ClientSession)
+	if sess == nil {
+		return fmt.Errorf("the bystander has no session")
+	}
+	w.by.ws.Close()
+	deadline := time.Now().Add(2 * time.Second)
+	for sess.GetClient() != nil {
+		if time.Now().After(deadline) {
+			return fmt.Errorf("the bystander's session keeps its client")
+		}
+		time.Sleep(200 * time.Microsecond)
+	}
+	for !w.by.dead {
+		select {
+		case f := <-w.by.ch:
+			if f.err != nil {
+				w.by.dead = true
+			}
+		case <-time.After(2 * time.Second):
+			return fmt.Errorf("the bystander's connection does not end")
+		}
+	}
+	w.bySess, w.byDetached, w.byQueued = sess, true, nil
+	sess.mu.Lock()
+	w.bySeen = len(sess.pendingClientMessages)
+	sess.mu.Unlock()
+	return nil
+}
+
+// resumeBystander connects again and resumes the session; everything that was queued must arrive
+// (and, from the room, at most a participants update on top).
+func (w *vC10World) resumeBystander() string {
+	if !w.byDetached {
+		return "ok"
+	}
+	c, err := w.connect()
+	if err != nil {
+		return "fail:" + vEnc(err.Error())
+	}
+	old := w.by
+	err = w.hello(c, map[string]interface{}{"id": "h", "type": "hello", "hello": map[string]interface{}{"version": "1.0", "resumeid": old.priv}})
+	if err != nil {
+		c.close()
+		return "fail:" + vEnc(err.Error())
+	}
+	if c.pub != old.pub {
+		c.close()
+		return "fail:resumed-another-session"
+	}
+	w.by, w.byDetached = c, false
+	var got []string
+	if !w.syncSession(c, &got) {
+		return "fail:timeout-after-resume"
+	}
+	want := map[string]int{}
+	for _, k := range w.byQueued {
+		want[k]++
+	}
+	for _, k := range got {
+		if want[k] > 0 {
+			want[k]--
+		} else if k != "event.participants.update" {
+			return "lost:extra:" + vEnc(k)
+		}
+	}
+	for k, n := range want {
+		if n > 0 {
+			return "lost:" + vEnc(k)
+		}
+	}
+	w.byQueued, w.bySeen = nil, 0
+	return "ok"
+}
+
+func vC10SyncNum(v interface{}) int {
+	switch x := v.(type) {
+	case int:
+		return x
+	case int64:
+		return int(x)
+	case float64:
+		return int(x)
+	case json.Number:
+		n, _ := x.Int64()
+		return int(n)
+	}
+	return -1
+}
+
+// vC10QueuedSync: is a queued message one of the harness' barrier markers?
+func vC10QueuedSync(m *ServerMessage) (int, string, bool) {
+	if m != nil && m.Type == "transient" && m.TransientData != nil && m.TransientData.Key == vC10SyncKey {
+		return vC10SyncNum(m.TransientData.Value), "t", true
+	}
+	return vC10IsSync(m)
+}
+
+// syncDetached is syncSession for a bystander without connection: the markers end up in the queue of
+// its session.  Reports the kinds of the messages queued since the last call and takes the markers out.
+func (w *vC10World) syncDetached(kinds *[]string) bool {
+	sess := w.bySess
+	if sess == nil {
+		return true
+	}
+	w.syncN++
+	n := w.syncN
+	waitFor := func(tags ...string) bool {
+		deadline := time.Now().Add(5 * time.Second)
+		for {
+			seen := map[string]bool{}
+			sess.mu.Lock()
+			for _, pm := range sess.pendingClientMessages {
+				if sn, tag, ok := vC10QueuedSync(pm); ok && sn == n {
+					seen[tag] = true
+				}
+			}
+			sess.mu.Unlock()
+			all := true
+			for _, t := range tags {
+				all = all && seen[t]
+			}
+			if all {
+				return true
+			}
+			if time.Now().After(deadline) {
+				return false
+			}
+			time.Sleep(100 * time.Microsecond)
+		}
+	}
+	room := sess.GetRoom()
+	if room != nil {
+		err := w.events.PublishBackendRoomMessage(room.Id(), w.backend, &AsyncMessage{Type: "room", Room: &BackendServerRoomRequest{
+			Type: "transient", ReceivedTime: time.Now().UnixNano(),
+			Transient: &BackendRoomTransientRequest{Action: TransientActionSet, Key: vC10SyncKey, Value: n}}})
+		if err != nil || !waitFor("t") {
+			return false
+		}
+	}
+	data := json.RawMessage(strconv.Itoa(n))
+	mk := func(tag string) *AsyncMessage {
+		return &AsyncMessage{Type: "message", Message: &ServerMessage{Type: "control", Control: &ControlServerMessage{
+			Sender: &MessageServerMessageSender{Type: vC10SyncSender, SessionId: tag}, Data: data}}}
+	}
+	tags := []string{"s"}
+	if room != nil {
+		tags = append(tags, "r")
+		if err := w.events.PublishRoomMessage(room.Id(), w.backend, mk("r")); err != nil {
+			return false
+		}
+	}
+	if uid := sess.UserId(); uid != "" && !strings.ContainsAny(uid, " ") {
+		tags = append(tags, "u")
+		if err := w.events.PublishUserMessage(uid, w.backend, mk("u")); err != nil {
+			return false
+		}
+	}
+	if err := w.events.PublishSessionMessage(sess.PublicId(), w.backend, mk("s")); err != nil {
+		return false
+	}
+	if !waitFor(tags...) {
+		return false
+	}
+	sess.mu.Lock()
+	var kept []*ServerMessage
+	for _, pm := range sess.pendingClientMessages {
+		if _, _, isSync := vC10QueuedSync(pm); !isSync {
+			kept = append(kept, pm)
+		}
+	}
+	sess.pendingClientMessages = kept
+	fresh := append([]*ServerMessage(nil), kept[min(w.bySeen, len(kept)):]...)
+	w.bySeen = len(kept)
+	sess.mu.Unlock()
+	for _, pm := range fresh {
+		kind := "malformed"
+		if data, err := pm.MarshalJSON(); err == nil {
+			kind, _ = vC10Kind(data)
+		}
+		*kinds = append(*kinds, kind)
+		w.byQueued = append(w.byQueued, kind)
+	}
+	return true
 }
 
 // publishBystander: the bystander publishes audio and video through the media
@@ -685,7 +1022,12 @@ func (w *vC10World) barrier() (snd []string, by []string, ok bool) {
 			ok = false
 		}
 	}
-	if w.by != nil && !w.by.dead {
+	if w.by != nil && w.byDetached {
+		if !w.syncDetached(&by) {
+			by = append(by, "timeout")
+			ok = false
+		}
+	} else if w.by != nil && !w.by.dead {
 		if !w.syncSession(w.by, &by) {
 			by = append(by, "timeout")
 			ok = false
@@ -706,6 +1048,12 @@ func (w *vC10World) senderFederated() bool {
 	}
 	fc := sess.GetFederationClient()
 	return fc != nil && fc.hello.Load() != nil
+}
+
+func (w *vC10World) expectHelloCount() int {
+	w.hub.mu.RLock()
+	defer w.hub.mu.RUnlock()
+	return len(w.hub.expectHelloClients)
 }
 
 func (w *vC10World) findSession(pub string) Session {
@@ -831,6 +1179,8 @@ func (w *vC10World) idle(c *vC10Conn, kinds *[]string, d time.Duration) {
 
 // ---------- sender states ----------
 
+// (the state `remote` - a connection without session that is not a websocket of this hub - is only used
+// by its own family of cases: frames of such a connection have passed the ReadPump of another node)
 var vC10States = []string{"nosession", "session", "room", "roomr", "internal", "internalroom", "dialout", "federated"}
 
 func (w *vC10World) dropSender() {
@@ -857,6 +1207,8 @@ func (w *vC10World) setState(state string) error {
 	switch state {
 	case "nosession":
 		c, err = w.connect()
+	case "remote":
+		c = vC10NewRemote(w.hub)
 	case "session":
 		c, err = w.connectUser("sender")
 	case "room", "roomr":
